@@ -156,6 +156,296 @@ impl View for WirePatchResponse {
     open spec fn view(&self) -> WirePatchResponseV { WirePatchResponseV { checked_patch: oview(self.checked_patch) } }
 }
 
+// ---- files.proto (out/files.rs) ------------------------------------------------------------
+/// message WireExternalFile
+pub struct WireExternalFile { pub folder_id: Vec<u8>, pub secret_id: Vec<u8>, pub file_name: Vec<u8> }
+pub ghost struct WireExternalFileV { pub folder_id: Seq<u8>, pub secret_id: Seq<u8>, pub file_name: Seq<u8> }
+impl View for WireExternalFile {
+    type V = WireExternalFileV;
+    open spec fn view(&self) -> WireExternalFileV { WireExternalFileV { folder_id: self.folder_id@, secret_id: self.secret_id@, file_name: self.file_name@ } }
+}
+/// message WireFileSet
+pub struct WireFileSet { pub files: Vec<WireExternalFile> }
+pub ghost struct WireFileSetV { pub files: Seq<WireExternalFileV> }
+impl View for WireFileSet {
+    type V = WireFileSetV;
+    open spec fn view(&self) -> WireFileSetV { WireFileSetV { files: sview(self.files@) } }
+}
+/// message WireFileTransfersSet
+pub struct WireFileTransfersSet { pub uploads: Option<WireFileSet>, pub downloads: Option<WireFileSet> }
+pub ghost struct WireFileTransfersSetV { pub uploads: Option<WireFileSetV>, pub downloads: Option<WireFileSetV> }
+impl View for WireFileTransfersSet {
+    type V = WireFileTransfersSetV;
+    open spec fn view(&self) -> WireFileTransfersSetV { WireFileTransfersSetV { uploads: oview(self.uploads), downloads: oview(self.downloads) } }
+}
+
+// ---- sync.proto (out/sync.rs) ------------------------------------------------------------
+/// message Contains / WireComparison { oneof inner { bool equal = 1; Contains contains = 2; bool unknown = 3; } }
+pub struct Contains { pub indices: Vec<u64> }
+pub struct WireComparison { pub inner: Option<wire_comparison::Inner> }
+pub mod wire_comparison {
+    #[allow(unused_imports)] use vstd::prelude::*;
+    pub enum Inner { Equal(bool), Contains(super::Contains), Unknown(bool) }
+}
+pub ghost enum WireComparisonV { Missing, Equal(bool), Contains(Seq<u64>), Unknown(bool) }
+impl View for WireComparison {
+    type V = WireComparisonV;
+    open spec fn view(&self) -> WireComparisonV {
+        match self.inner {
+            None => WireComparisonV::Missing,
+            Some(wire_comparison::Inner::Equal(b)) => WireComparisonV::Equal(b),
+            Some(wire_comparison::Inner::Contains(c)) => WireComparisonV::Contains(c.indices@),
+            Some(wire_comparison::Inner::Unknown(b)) => WireComparisonV::Unknown(b),
+        }
+    }
+}
+/// message WirePatch
+pub struct WirePatch { pub records: Vec<WireEventRecord> }
+pub ghost struct WirePatchV { pub records: Seq<WireEventRecordV> }
+impl View for WirePatch {
+    type V = WirePatchV;
+    open spec fn view(&self) -> WirePatchV { WirePatchV { records: sview(self.records@) } }
+}
+/// message WireDiff
+pub struct WireDiff { pub last_commit: Option<WireCommitHash>, pub patch: Option<WirePatch>, pub checkpoint: Option<WireCommitProof> }
+pub ghost struct WireDiffV { pub last_commit: Option<Seq<u8>>, pub patch: Option<WirePatchV>, pub checkpoint: Option<WireCommitProofV> }
+impl View for WireDiff {
+    type V = WireDiffV;
+    open spec fn view(&self) -> WireDiffV { WireDiffV { last_commit: oview(self.last_commit), patch: oview(self.patch), checkpoint: oview(self.checkpoint) } }
+}
+/// message WireTrackedAccountChange { oneof inner { FolderCreated = 1; FolderUpdated = 2; FolderDeleted = 3 } }
+pub struct WireTrackedAccountFolderCreated { pub folder_id: Vec<u8> }
+pub struct WireTrackedAccountFolderUpdated { pub folder_id: Vec<u8> }
+pub struct WireTrackedAccountFolderDeleted { pub folder_id: Vec<u8> }
+pub struct WireTrackedAccountChange { pub inner: Option<wire_tracked_account_change::Inner> }
+pub mod wire_tracked_account_change {
+    #[allow(unused_imports)] use vstd::prelude::*;
+    pub enum Inner {
+        FolderCreated(super::WireTrackedAccountFolderCreated),
+        FolderUpdated(super::WireTrackedAccountFolderUpdated),
+        FolderDeleted(super::WireTrackedAccountFolderDeleted),
+    }
+}
+pub ghost enum WireTrackedAccountChangeV { Missing, FolderCreated(Seq<u8>), FolderUpdated(Seq<u8>), FolderDeleted(Seq<u8>) }
+impl View for WireTrackedAccountChange {
+    type V = WireTrackedAccountChangeV;
+    open spec fn view(&self) -> WireTrackedAccountChangeV {
+        match self.inner {
+            None => WireTrackedAccountChangeV::Missing,
+            Some(wire_tracked_account_change::Inner::FolderCreated(x)) => WireTrackedAccountChangeV::FolderCreated(x.folder_id@),
+            Some(wire_tracked_account_change::Inner::FolderUpdated(x)) => WireTrackedAccountChangeV::FolderUpdated(x.folder_id@),
+            Some(wire_tracked_account_change::Inner::FolderDeleted(x)) => WireTrackedAccountChangeV::FolderDeleted(x.folder_id@),
+        }
+    }
+}
+/// message WireTrackedDeviceChange { oneof inner { Trusted = 1; Revoked = 2 } }
+pub struct WireTrackedDeviceChangeTrusted { pub device_public_key: Vec<u8> }
+pub struct WireTrackedDeviceChangeRevoked { pub device_public_key: Vec<u8> }
+pub struct WireTrackedDeviceChange { pub inner: Option<wire_tracked_device_change::Inner> }
+pub mod wire_tracked_device_change {
+    #[allow(unused_imports)] use vstd::prelude::*;
+    pub enum Inner { Trusted(super::WireTrackedDeviceChangeTrusted), Revoked(super::WireTrackedDeviceChangeRevoked) }
+}
+pub ghost enum WireTrackedDeviceChangeV { Missing, Trusted(Seq<u8>), Revoked(Seq<u8>) }
+impl View for WireTrackedDeviceChange {
+    type V = WireTrackedDeviceChangeV;
+    open spec fn view(&self) -> WireTrackedDeviceChangeV {
+        match self.inner {
+            None => WireTrackedDeviceChangeV::Missing,
+            Some(wire_tracked_device_change::Inner::Trusted(x)) => WireTrackedDeviceChangeV::Trusted(x.device_public_key@),
+            Some(wire_tracked_device_change::Inner::Revoked(x)) => WireTrackedDeviceChangeV::Revoked(x.device_public_key@),
+        }
+    }
+}
+/// message WireTrackedFileChange { oneof inner { Created = 1; Moved = 2; Deleted = 3 } }
+pub struct WireTrackedFileCreated { pub owner: Option<WireSecretPath>, pub file_name: Vec<u8> }
+pub struct WireTrackedFileMoved { pub name: Vec<u8>, pub from: Option<WireSecretPath>, pub dest: Option<WireSecretPath> }
+pub struct WireTrackedFileDeleted { pub owner: Option<WireSecretPath>, pub file_name: Vec<u8> }
+pub struct WireTrackedFileChange { pub inner: Option<wire_tracked_file_change::Inner> }
+pub mod wire_tracked_file_change {
+    #[allow(unused_imports)] use vstd::prelude::*;
+    pub enum Inner { Created(super::WireTrackedFileCreated), Moved(super::WireTrackedFileMoved), Deleted(super::WireTrackedFileDeleted) }
+}
+pub ghost enum WireTrackedFileChangeV {
+    Missing,
+    Created { owner: Option<WireSecretPathV>, file_name: Seq<u8> },
+    Moved { name: Seq<u8>, from: Option<WireSecretPathV>, dest: Option<WireSecretPathV> },
+    Deleted { owner: Option<WireSecretPathV>, file_name: Seq<u8> },
+}
+impl View for WireTrackedFileChange {
+    type V = WireTrackedFileChangeV;
+    open spec fn view(&self) -> WireTrackedFileChangeV {
+        match self.inner {
+            None => WireTrackedFileChangeV::Missing,
+            Some(wire_tracked_file_change::Inner::Created(x)) => WireTrackedFileChangeV::Created { owner: oview(x.owner), file_name: x.file_name@ },
+            Some(wire_tracked_file_change::Inner::Moved(x)) => WireTrackedFileChangeV::Moved { name: x.name@, from: oview(x.from), dest: oview(x.dest) },
+            Some(wire_tracked_file_change::Inner::Deleted(x)) => WireTrackedFileChangeV::Deleted { owner: oview(x.owner), file_name: x.file_name@ },
+        }
+    }
+}
+/// message WireTrackedFolderChange { oneof inner { Created = 1; Updated = 2; Deleted = 3 } }
+pub struct WireTrackedFolderChangeCreated { pub secret_id: Vec<u8> }
+pub struct WireTrackedFolderChangeUpdated { pub secret_id: Vec<u8> }
+pub struct WireTrackedFolderChangeDeleted { pub secret_id: Vec<u8> }
+pub struct WireTrackedFolderChange { pub inner: Option<wire_tracked_folder_change::Inner> }
+pub mod wire_tracked_folder_change {
+    #[allow(unused_imports)] use vstd::prelude::*;
+    pub enum Inner {
+        Created(super::WireTrackedFolderChangeCreated),
+        Updated(super::WireTrackedFolderChangeUpdated),
+        Deleted(super::WireTrackedFolderChangeDeleted),
+    }
+}
+pub ghost enum WireTrackedFolderChangeV { Missing, Created(Seq<u8>), Updated(Seq<u8>), Deleted(Seq<u8>) }
+impl View for WireTrackedFolderChange {
+    type V = WireTrackedFolderChangeV;
+    open spec fn view(&self) -> WireTrackedFolderChangeV {
+        match self.inner {
+            None => WireTrackedFolderChangeV::Missing,
+            Some(wire_tracked_folder_change::Inner::Created(x)) => WireTrackedFolderChangeV::Created(x.secret_id@),
+            Some(wire_tracked_folder_change::Inner::Updated(x)) => WireTrackedFolderChangeV::Updated(x.secret_id@),
+            Some(wire_tracked_folder_change::Inner::Deleted(x)) => WireTrackedFolderChangeV::Deleted(x.secret_id@),
+        }
+    }
+}
+
+/// message WireSyncFolderState / WireSyncStatus
+pub struct WireSyncFolderState { pub folder_id: Vec<u8>, pub state: Option<WireCommitState> }
+pub ghost struct WireSyncFolderStateV { pub folder_id: Seq<u8>, pub state: Option<WireCommitStateV> }
+impl View for WireSyncFolderState {
+    type V = WireSyncFolderStateV;
+    open spec fn view(&self) -> WireSyncFolderStateV { WireSyncFolderStateV { folder_id: self.folder_id@, state: oview(self.state) } }
+}
+pub struct WireSyncStatus {
+    pub root: Option<WireCommitHash>, pub identity: Option<WireCommitState>, pub account: Option<WireCommitState>,
+    pub device: Option<WireCommitState>, pub files: Option<WireCommitState>, pub folders: Vec<WireSyncFolderState>,
+}
+pub ghost struct WireSyncStatusV {
+    pub root: Option<Seq<u8>>, pub identity: Option<WireCommitStateV>, pub account: Option<WireCommitStateV>,
+    pub device: Option<WireCommitStateV>, pub files: Option<WireCommitStateV>, pub folders: Seq<WireSyncFolderStateV>,
+}
+impl View for WireSyncStatus {
+    type V = WireSyncStatusV;
+    open spec fn view(&self) -> WireSyncStatusV {
+        WireSyncStatusV { root: oview(self.root), identity: oview(self.identity), account: oview(self.account),
+            device: oview(self.device), files: oview(self.files), folders: sview(self.folders@) }
+    }
+}
+/// message WireSyncFolderPatch / WireCreateSet
+pub struct WireSyncFolderPatch { pub folder_id: Vec<u8>, pub patch: Option<WirePatch> }
+pub ghost struct WireSyncFolderPatchV { pub folder_id: Seq<u8>, pub patch: Option<WirePatchV> }
+impl View for WireSyncFolderPatch {
+    type V = WireSyncFolderPatchV;
+    open spec fn view(&self) -> WireSyncFolderPatchV { WireSyncFolderPatchV { folder_id: self.folder_id@, patch: oview(self.patch) } }
+}
+pub struct WireCreateSet {
+    pub identity: Option<WirePatch>, pub account: Option<WirePatch>, pub device: Option<WirePatch>,
+    pub files: Option<WirePatch>, pub folders: Vec<WireSyncFolderPatch>,
+}
+pub ghost struct WireCreateSetV {
+    pub identity: Option<WirePatchV>, pub account: Option<WirePatchV>, pub device: Option<WirePatchV>,
+    pub files: Option<WirePatchV>, pub folders: Seq<WireSyncFolderPatchV>,
+}
+impl View for WireCreateSet {
+    type V = WireCreateSetV;
+    open spec fn view(&self) -> WireCreateSetV {
+        WireCreateSetV { identity: oview(self.identity), account: oview(self.account), device: oview(self.device),
+            files: oview(self.files), folders: sview(self.folders@) }
+    }
+}
+/// message WireSyncFolderDiff / WireUpdateSet
+pub struct WireSyncFolderDiff { pub folder_id: Vec<u8>, pub diff: Option<WireDiff> }
+pub ghost struct WireSyncFolderDiffV { pub folder_id: Seq<u8>, pub diff: Option<WireDiffV> }
+impl View for WireSyncFolderDiff {
+    type V = WireSyncFolderDiffV;
+    open spec fn view(&self) -> WireSyncFolderDiffV { WireSyncFolderDiffV { folder_id: self.folder_id@, diff: oview(self.diff) } }
+}
+pub struct WireUpdateSet {
+    pub identity: Option<WireDiff>, pub account: Option<WireDiff>, pub device: Option<WireDiff>,
+    pub files: Option<WireDiff>, pub folders: Vec<WireSyncFolderDiff>,
+}
+pub ghost struct WireUpdateSetV {
+    pub identity: Option<WireDiffV>, pub account: Option<WireDiffV>, pub device: Option<WireDiffV>,
+    pub files: Option<WireDiffV>, pub folders: Seq<WireSyncFolderDiffV>,
+}
+impl View for WireUpdateSet {
+    type V = WireUpdateSetV;
+    open spec fn view(&self) -> WireUpdateSetV {
+        WireUpdateSetV { identity: oview(self.identity), account: oview(self.account), device: oview(self.device),
+            files: oview(self.files), folders: sview(self.folders@) }
+    }
+}
+/// message WireMaybeDiffHasDiff / WireMaybeDiffNeedsCompare / WireMaybeDiff { oneof inner { diff = 1; compare = 2 } }
+pub struct WireMaybeDiffHasDiff { pub diff: Option<WireDiff> }
+pub struct WireMaybeDiffNeedsCompare { pub compare: Option<WireCommitState> }
+pub struct WireMaybeDiff { pub inner: Option<wire_maybe_diff::Inner> }
+pub mod wire_maybe_diff {
+    #[allow(unused_imports)] use vstd::prelude::*;
+    pub enum Inner { Diff(super::WireMaybeDiffHasDiff), Compare(super::WireMaybeDiffNeedsCompare) }
+}
+pub ghost enum WireMaybeDiffV { Missing, Diff { diff: Option<WireDiffV> }, Compare { compare: Option<WireCommitStateV> } }
+impl View for WireMaybeDiff {
+    type V = WireMaybeDiffV;
+    open spec fn view(&self) -> WireMaybeDiffV {
+        match self.inner {
+            None => WireMaybeDiffV::Missing,
+            Some(wire_maybe_diff::Inner::Diff(d)) => WireMaybeDiffV::Diff { diff: oview(d.diff) },
+            Some(wire_maybe_diff::Inner::Compare(c)) => WireMaybeDiffV::Compare { compare: oview(c.compare) },
+        }
+    }
+}
+/// message WireSyncFolderMaybeDiff / WireSyncDiff
+pub struct WireSyncFolderMaybeDiff { pub folder_id: Vec<u8>, pub maybe_diff: Option<WireMaybeDiff> }
+pub ghost struct WireSyncFolderMaybeDiffV { pub folder_id: Seq<u8>, pub maybe_diff: Option<WireMaybeDiffV> }
+impl View for WireSyncFolderMaybeDiff {
+    type V = WireSyncFolderMaybeDiffV;
+    open spec fn view(&self) -> WireSyncFolderMaybeDiffV { WireSyncFolderMaybeDiffV { folder_id: self.folder_id@, maybe_diff: oview(self.maybe_diff) } }
+}
+pub struct WireSyncDiff {
+    pub identity: Option<WireMaybeDiff>, pub account: Option<WireMaybeDiff>, pub device: Option<WireMaybeDiff>,
+    pub files: Option<WireMaybeDiff>, pub folders: Vec<WireSyncFolderMaybeDiff>,
+}
+pub ghost struct WireSyncDiffV {
+    pub identity: Option<WireMaybeDiffV>, pub account: Option<WireMaybeDiffV>, pub device: Option<WireMaybeDiffV>,
+    pub files: Option<WireMaybeDiffV>, pub folders: Seq<WireSyncFolderMaybeDiffV>,
+}
+impl View for WireSyncDiff {
+    type V = WireSyncDiffV;
+    open spec fn view(&self) -> WireSyncDiffV {
+        WireSyncDiffV { identity: oview(self.identity), account: oview(self.account), device: oview(self.device),
+            files: oview(self.files), folders: sview(self.folders@) }
+    }
+}
+/// message WireSyncFolderComparison / WireSyncCompare
+pub struct WireSyncFolderComparison { pub folder_id: Vec<u8>, pub compare: Option<WireComparison> }
+pub ghost struct WireSyncFolderComparisonV { pub folder_id: Seq<u8>, pub compare: Option<WireComparisonV> }
+impl View for WireSyncFolderComparison {
+    type V = WireSyncFolderComparisonV;
+    open spec fn view(&self) -> WireSyncFolderComparisonV { WireSyncFolderComparisonV { folder_id: self.folder_id@, compare: oview(self.compare) } }
+}
+pub struct WireSyncCompare {
+    pub identity: Option<WireComparison>, pub account: Option<WireComparison>, pub device: Option<WireComparison>,
+    pub files: Option<WireComparison>, pub folders: Vec<WireSyncFolderComparison>,
+}
+pub ghost struct WireSyncCompareV {
+    pub identity: Option<WireComparisonV>, pub account: Option<WireComparisonV>, pub device: Option<WireComparisonV>,
+    pub files: Option<WireComparisonV>, pub folders: Seq<WireSyncFolderComparisonV>,
+}
+impl View for WireSyncCompare {
+    type V = WireSyncCompareV;
+    open spec fn view(&self) -> WireSyncCompareV {
+        WireSyncCompareV { identity: oview(self.identity), account: oview(self.account), device: oview(self.device),
+            files: oview(self.files), folders: sview(self.folders@) }
+    }
+}
+/// message WireSyncPacket
+pub struct WireSyncPacket { pub status: Option<WireSyncStatus>, pub diff: Option<WireSyncDiff>, pub compare: Option<WireSyncCompare> }
+pub ghost struct WireSyncPacketV { pub status: Option<WireSyncStatusV>, pub diff: Option<WireSyncDiffV>, pub compare: Option<WireSyncCompareV> }
+impl View for WireSyncPacket {
+    type V = WireSyncPacketV;
+    open spec fn view(&self) -> WireSyncPacketV { WireSyncPacketV { status: oview(self.status), diff: oview(self.diff), compare: oview(self.compare) } }
+}
+
 /// enum WireEventLogTypeSystem (out/common.rs): the generated enum and its two
 /// name functions, bodies verbatim from the generated file; the `ensures` are
 /// checked against those bodies (not assumed).
@@ -265,6 +555,30 @@ impl vstd::std_specs::convert::FromSpecImpl<Error> for WireError {
 }
 impl core::convert::From<Error> for WireError { #[verifier::external_body] fn from(e: Error) -> (r: WireError) { WireError { _p: () } } }
 
+/// sos_core::Error (crates/core/src/error.rs) as far as the conversions used by
+/// the bindings need it: opaque, built from TryFromSliceError, converted by
+/// `#[from]` into the protocol error.
+#[derive(Debug)]
+pub struct CoreError { pub _p: () }
+pub type CoreResult<T> = core::result::Result<T, CoreError>;
+impl vstd::std_specs::convert::FromSpecImpl<TryFromSliceError> for CoreError {
+    open spec fn obeys_from_spec() -> bool { true }
+    open spec fn from_spec(e: TryFromSliceError) -> CoreError { CoreError { _p: () } }
+}
+impl core::convert::From<TryFromSliceError> for CoreError { fn from(e: TryFromSliceError) -> (r: CoreError) { CoreError { _p: () } } }
+impl vstd::std_specs::convert::FromSpecImpl<CoreError> for WireError {
+    open spec fn obeys_from_spec() -> bool { true }
+    open spec fn from_spec(e: CoreError) -> WireError { WireError { _p: () } }
+}
+impl core::convert::From<CoreError> for WireError { fn from(e: CoreError) -> (r: WireError) { WireError { _p: () } } }
+
+/// sos_core::events::{WriteEvent, AccountEvent, DeviceEvent, FileEvent}: used by the
+/// bindings only as phantom type parameters of Patch<T> / Diff<T>
+pub struct WriteEvent {}
+pub struct AccountEvent {}
+pub struct DeviceEvent {}
+pub struct FileEvent {}
+
 // ---- R12 helpers: iterator chains with their std meaning -------------------------------------
 /// element-wise `as` casts of a sequence (same length, each element cast)
 pub open spec fn seq_usize_of(s: Seq<u64>) -> Seq<usize> { Seq::new(s.len(), |i: int| s[i] as usize) }
@@ -300,6 +614,11 @@ pub fn vmap_into<A, B: core::convert::From<A>>(v: Vec<A>) -> (r: Vec<B>)
 pub fn vec_with_capacity_like<T, U>(src: &Vec<U>) -> (v: Vec<T>)
     ensures v@.len() == 0,
 { Vec::with_capacity(src.len()) }
+/// `<[u8]>::to_vec` on a byte slice
+#[verifier::external_body]
+pub fn slice_to_vec(a: &[u8]) -> (r: Vec<u8>)
+    ensures r@ == a@,
+{ a.to_vec() }
 /// `<[u8; N]>::to_vec` / `<[u8]>::to_vec` on a byte array reference
 #[verifier::external_body]
 pub fn arr_to_vec<const N: usize>(a: &[u8; N]) -> (r: Vec<u8>)
